@@ -134,6 +134,43 @@ theorem body_line_continues (enc : Encoding) (code l : Str) (ch : Bytes) (hc : D
         parseLoop enc code (info ++ [rstrip (' ' :: l)]) rest' curr' R :=
   cont_step hc (ContLine.body l) he ho
 
+/-! ### the spellings of other servers -/
+
+/-- **foreign_spelling_decoded.**  RFC 959 lets a server spell a multi-line reply in more ways than aioftp's server
+    does: after the `code-` line any number of lines that repeat the code and a hyphen (`ContLine.hdr`), start with a
+    blank (`ContLine.body`), or are plain text whose first three characters are not all digits (`ContLine.raw`), in
+    any mixture, then the `code ` line.  The client decodes every such reply into the same code and one entry per
+    line - the text after the code for the lines that carry it, the whole line otherwise - and stops exactly at its
+    end, for every encoding and every segmentation of the stream.  (`mid` pairs each wire line with its entry.) -/
+theorem foreign_spelling_decoded (enc : Encoding) (code l0 t : Str) (mid : List (Str × Str)) (hc : Digits3 code)
+    (hmid : ∀ p ∈ mid, ContLine code p.1 p.2)
+    (he : ∀ x ∈ (code ++ '-' :: l0) :: mid.map (·.1) ++ [code ++ ' ' :: t], Encodable enc x ∧ '\n' ∉ x)
+    (tail : Bytes) (segs : List Bytes)
+    (hsegs : segs.flatten =
+      (((code ++ '-' :: l0) :: mid.map (·.1) ++ [code ++ ' ' :: t]).map (encLine enc)).flatten ++ tail) :
+    parseResponse enc (readlines segs) =
+      (.ok (code, ('-' :: rstrip l0) :: mid.map (·.2) ++ [lastInfo t]), splitLines tail) := by
+  rw [readlines_eq_splitLines, hsegs, splitLines_chunks]
+  · exact parse_foreign_multi hc l0 mid t hmid (fun x hx => line_isSome (he x hx).1) _
+  · intro c hc'
+    obtain ⟨x, hx, rfl⟩ := List.mem_map.mp hc'
+    exact encLine_shape (he x hx).1 (he x hx).2
+
+/-- a raw body line that starts with one or two digits and then something else ("2 users online", "22 files") is
+    such a line: it neither ends the reply nor is it taken for a code -/
+theorem digit_leading_text_is_body (code : Str) :
+    ContLine code "2 users online".toList "2 users online".toList ∧
+    ContLine code "22 files".toList "22 files".toList := by
+  constructor
+  · exact ContLine.raw "2 users online".toList (by decide)
+  · exact ContLine.raw "22 files".toList (by decide)
+
+/-- non-vacuity: a 226 reply of five lines in three spellings, cut into single bytes, followed by another reply -/
+example :
+    parseResponse .utf8 (readlines ((ascii "226-first\r\n226-again\r\n indented\r\n22 files\r\nplain text\r\n226 done\r\n220 next\r\n").map (fun b => [b]))) =
+      (.ok ("226".toList, ["-first".toList, "-again".toList, " indented".toList, "22 files".toList, "plain text".toList, " done".toList]),
+       [ascii "220 next\r\n"]) := by decide +kernel
+
 /-! ### malformed replies -/
 
 /-- **mismatch_rejected.**  A reply of at least two lines cut before its last line and followed by
